@@ -523,6 +523,8 @@ class VeriTAndPos(Macro):
     def eval(self, args, prevs=None):
         # args: ~(p1 & p2 & ... & pn) and pk
         neg_conj, pk = args
+        if not neg_conj.is_not():
+            raise VeriTException("and_pos", "first literal should be a negation")
         conjs = neg_conj.arg.strip_conj()
         if pk in conjs:
             return Thm(Or(neg_conj, pk))
